@@ -70,9 +70,66 @@ class StaticDynamicSpec(c07.ModuleSpec):
                 'nontrivial': bool(outcome) and max(outcome) >= 2}
 
 
+class PackageMemberSpec(Spec):
+    """the files of a regular package analysed one by one: __init__.py, __main__.py, a submodule, a module of a
+    sub-package - for each file the two analyses must describe *that file*"""
+    prop = 'C16'
+    name = 'package-members'
+    title = 'static vs dynamic analysis of the individual files of a package'
+    FILES = ['__init__.py', '__main__.py', 'sub.py', 'inner/__init__.py', 'inner/__main__.py', 'inner/deep.py']
+    max_len = 2
+
+    def __init__(self):
+        self.rule = ('package holding %r, every file with its own documented function, class and method; each file path x '
+                     '3 styles analysed statically and dynamically; non-trivial = all' % (self.FILES,))
+
+    def histories(self, stats):
+        for f in self.FILES:
+            for st in layouts.STYLES:
+                yield (f, st)
+
+    def hist_cost(self, hist):
+        return 0
+
+    def run_case(self, hist):
+        fname, style = hist
+        atoms = []
+        with harness.scratch_dir('c16p') as d:
+            pk = os.path.join(d, 'pk16')
+            os.makedirs(os.path.join(pk, 'inner'))
+            for i, f in enumerate(self.FILES):
+                tag = 'file%d' % i
+                src = ('def fn_%s():\n    """\n    Example:\n        >>> print(%r)\n        %s\n    """\n\n\n'
+                       'class K_%s(object):\n    """\n    Example:\n        >>> print(%r)\n        %s\n    """\n'
+                       '    def m(self):\n        """\n        Example:\n            >>> print(%r)\n            %s\n        """\n' % (
+                           tag, 'tok_f_' + tag, 'tok_f_' + tag, tag, 'tok_k_' + tag, 'tok_k_' + tag, 'tok_m_' + tag, 'tok_m_' + tag))
+                with open(os.path.join(pk, f), 'w') as fh:
+                    fh.write(src)
+            path = os.path.join(pk, fname)
+            res = {}
+            try:
+                for an in ('static', 'dynamic'):
+                    try:
+                        exs = c07.collect(path, style, an)
+                        res[an] = sorted((e.unique_callname, e.docsrc) for e in exs)
+                    except Exception as ex:
+                        atoms.append({'sig': 'package-member:collect-raises:%s:%s' % (an, type(ex).__name__), 'msg': '%s %s: %r' % (fname, style, ex)})
+            finally:
+                harness.forget_modules('pk16')
+            if len(res) == 2 and res['static'] != res['dynamic']:
+                atoms.append({'sig': 'package-member:analyses-differ:' + os.path.basename(fname),
+                              'msg': '%s (style %s): static %r, dynamic %r' % (fname, style, [r[0] for r in res['static']], [r[0] for r in res['dynamic']])})
+            tag = 'file%d' % self.FILES.index(fname)
+            for an, r in res.items():
+                if any(tag not in src_ for _, src_ in r) or len(r) != 3:
+                    atoms.append({'sig': 'package-member:%s-describes-another-file' % an,
+                                  'msg': '%s (style %s): %s analysis yields %r' % (fname, style, an, [x[0] for x in r])})
+        return {'atoms': atoms, 'outcome': 'ok' if not atoms else 'bad', 'case': {'file': fname, 'style': style}, 'nontrivial': 1}
+
+
 def specs(tier):
     if tier == 'thorough':
         return [StaticDynamicSpec('modules<=2', 2, 99), StaticDynamicSpec('modules=3', 3, 3, min_len=3),
-                StaticDynamicSpec('blocks<=3', 3, 99, blocks=True)]
-    return [StaticDynamicSpec('modules<=2', 2, 99), StaticDynamicSpec('modules=3', 3, 2, min_len=3),
-            StaticDynamicSpec('blocks<=2', 2, 99, blocks=True)]
+                StaticDynamicSpec('blocks<=3', 3, 99, blocks=True), PackageMemberSpec()]
+    return [StaticDynamicSpec('modules<=2', 2, 4), StaticDynamicSpec('modules=3', 3, 2, min_len=3),
+            StaticDynamicSpec('blocks<=2', 2, 99, blocks=True), PackageMemberSpec()]
